@@ -88,6 +88,39 @@ def worker_rules(rep, rid, w, S, FLAGS, FUTEX, QHEAD, QTAIL, FUNC, STOP, tag="wo
                           what="a grabbed batch is iterated (its items run) before the worker looks at STOP / sleeps")
 
 
+def creator_inits(rep, rid, c, w, prefix, qhead, qtail, tag="create"):
+    """everything of `prefix.*` the consumer thread `w` reads is initialised by the creator `c` (a store, or a whole-object memset to 0) before
+    pthread_create; the queue proper: tail points at the head node, the head's dequeue lock is initialised"""
+    pc = [x for x in pat.calls(c, "pthread_create")]
+    if not pc:
+        return
+    rd = set()
+    for i in w.all_insts():
+        if i.op in ("load", "rmw", "cmpxchg", "xchg") and i.d.get("ap"):
+            fs = [x for x in pat.full_ap_fields(i.d["ap"]) if x.startswith(prefix + ".")]
+            if fs:
+                rd.add(fs[0])
+    pat.require(len(rd) >= 4, "%s: consumer reads only %s" % (tag, sorted(rd)))
+    zero = [i for i in c.all_insts() if i.op == "call" and i.callee.startswith("llvm.memset") and ir.const_of(c, i.args[1]) == 0 and i.d["aps"][0] and not i.d["aps"][0]["steps"]]
+    for fld in sorted(rd):
+        sts = [x for x in c.all_insts() if x.op == "store" and x.d["ap"] and fld in pat.full_ap_fields(x.d["ap"])]
+        ini = sts + zero + ([x for x in pat.calls(c, "pthread_mutex_init")] if fld == qhead else [])
+        short = fld.split(".", 1)[1]
+        if not ini:
+            rep.bad(rid, "%s.init.%s" % (tag, short), "the consumer thread reads ->%s, which %s leaves uninitialised (malloc memory)" % (short, c.srcname), [pc[0].where()])
+        else:
+            rep.must_pass(rid, "%s.init.%s" % (tag, short), c, [c.entry()], pc, lambda i, ini=ini: i in ini, include_start=True, what="->%s is initialised before the consumer thread is created" % short)
+    tl = [x for x in c.all_insts() if x.op == "store" and x.d["ap"] and qtail in pat.full_ap_fields(x.d["ap"])]
+    good = [x for x in tl if (lambda e: e[0] == "addr" and qhead in e[1])(ir.expr(c, x.args[0], 3))]
+    if not good:
+        rep.bad(rid, tag + ".queue-tail", "%s never points the queue's tail at its head node: the first enqueue exchanges a NULL tail and writes through it" % c.srcname, [pc[0].where()])
+    else:
+        rep.must_pass(rid, tag + ".queue-tail", c, [c.entry()], pc, lambda i: i in good, include_start=True, what="tail.p = &head.node before the consumer thread is created")
+    mi = pat.calls(c, "pthread_mutex_init")
+    rep.check(bool(mi) and c.reach([c.entry()], pc, avoid=lambda i: i in mi, include_start=True)[0] is None, rid, tag + ".queue-lock", "the queue's dequeue lock is initialised before the consumer is created",
+              "the queue's dequeue lock is not initialised before the consumer thread starts splicing under it", [pc[0].where()])
+
+
 def rule_workqueue(ctx, rep, rid):
     # ---- A. urcu_workqueue_queue_work: initialise, publish, wake -------------------------------------------------
     f = _f(ctx, "urcu_workqueue_queue_work")
@@ -157,34 +190,7 @@ def rule_workqueue(ctx, rep, rid):
         tid = okfn[0].d["aps"][0]
         rep.check(tid is not None and pat.last_field(tid) == "urcu_workqueue.tid", rid, name + ".tid", "the thread id is recorded in workqueue->tid (joined by destroy)", "pthread_create does not record the id in workqueue->tid", [okfn[0].where()])
     # ---- C2. creation: everything the worker reads is initialised before the worker exists ---------------------------------------
-    c = _f(ctx, "urcu_workqueue_create")
-    pc = [x for x in pat.calls(c, "pthread_create")]
-    if pc:
-        rd = set()
-        for i in w.all_insts():
-            if i.op in ("load", "rmw", "cmpxchg", "xchg") and i.d.get("ap"):
-                fs = [x for x in pat.full_ap_fields(i.d["ap"]) if x.startswith("urcu_workqueue.")]
-                if fs:
-                    rd.add(fs[0])
-        pat.require(len(rd) >= 4, "worker reads only %s of the work queue" % sorted(rd))
-        zero = [i for i in c.all_insts() if i.op == "call" and i.callee.startswith("llvm.memset") and ir.const_of(c, i.args[1]) == 0 and i.d["aps"][0] and not i.d["aps"][0]["steps"]]
-        for fld in sorted(rd):
-            sts = [x for x in c.all_insts() if x.op == "store" and x.d["ap"] and fld in pat.full_ap_fields(x.d["ap"])]
-            ini = sts + zero + ([x for x in pat.calls(c, "pthread_mutex_init")] if fld == "urcu_workqueue.cbs_head" else [])
-            if not ini:
-                rep.bad(rid, "create.init." + fld.split(".", 1)[1], "the worker thread reads workqueue->%s, which urcu_workqueue_create leaves uninitialised (malloc memory)" % fld.split(".", 1)[1], [pc[0].where()])
-            else:
-                rep.must_pass(rid, "create.init." + fld.split(".", 1)[1], c, [c.entry()], pc, lambda i, ini=ini: i in ini, include_start=True, what="workqueue->%s is initialised before the worker thread is created" % fld.split(".", 1)[1])
-        # the queue proper: tail points at the head node (an all-zero tail makes the first enqueue write through NULL), head lock initialised
-        tl = [x for x in c.all_insts() if x.op == "store" and x.d["ap"] and "urcu_workqueue.cbs_tail" in pat.full_ap_fields(x.d["ap"])]
-        good = [x for x in tl if (lambda e: e[0] == "addr" and "urcu_workqueue.cbs_head" in e[1])(ir.expr(c, x.args[0], 3))]
-        if not good:
-            rep.bad(rid, "create.queue-tail", "urcu_workqueue_create never points cbs_tail at cbs_head: the first urcu_workqueue_queue_work() exchanges a NULL tail and writes through it", [pc[0].where()])
-        else:
-            rep.must_pass(rid, "create.queue-tail", c, [c.entry()], pc, lambda i: i in good, include_start=True, what="cbs_tail.p = &cbs_head.node before the worker thread is created")
-        mi = pat.calls(c, "pthread_mutex_init")
-        rep.check(bool(mi) and all(c.reach([c.entry()], pc, avoid=lambda i: i in mi, include_start=True)[0] is None for _ in (0,)), rid, "create.queue-lock", "the queue's dequeue lock is initialised before the worker is created",
-                  "the queue's dequeue lock is not initialised before the worker thread starts splicing under it", [pc[0].where()])
+    creator_inits(rep, rid, _f(ctx, "urcu_workqueue_create"), w, "urcu_workqueue", "urcu_workqueue.cbs_head", "urcu_workqueue.cbs_tail")
     # ---- D. destroy: STOP ≺ wake ≺ join ------------------------------------------------------------------------------------
     d = _f(ctx, "urcu_workqueue_destroy")
     rep.touch(d)
